@@ -42,6 +42,11 @@ func runGate(c *vp.Child) {
 	}
 	if c.Batch == 0 {
 		c.Feature("functions-enumerated", int64(len(paths)))
+		var all []string
+		for _, p := range paths {
+			all = append(all, p.name)
+		}
+		c.Output("functions", strings.Join(all, "\n"))
 	}
 	nTuples := c.Pick(4, 32)
 	fresh := func() bool {
